@@ -32,15 +32,32 @@ def clean():
     sh(["git", "clean", "-fdq", "-e", "target"])
 
 
+IDS = {}
+
+
 def junit():
     passed, failed = set(), set()
     if not os.path.exists(JUNIT):
         return None, None
     for tc in ET.parse(JUNIT).getroot().iter("testcase"):
         tid = (tc.get("classname") or "") + "::" + (tc.get("name") or "")
+        IDS[tid] = (tc.get("classname") or "", tc.get("name") or "")
         bad = tc.find("failure") is not None or tc.find("error") is not None
         (failed if bad else passed).add(tid)
     return passed - failed, failed
+
+
+def rerun_alone(tid):
+    """A baseline test that failed in the loaded full run (several are wall-clock comparisons) is re-run alone, twice at most."""
+    if tid not in IDS:
+        return False
+    cls, name = IDS[tid]
+    for _ in range(2):
+        rc, out = sh(["cargo", "nextest", "run", "--workspace", "--offline", "--tool-config-file", "pb:/w/lib/nextest.toml",
+                      "-E", "binary_id(=%s) & test(=%s)" % (cls, name)], timeout=1800)
+        if rc == 0 and " 1 passed" in out:
+            return True
+    return False
 
 
 def main():
@@ -88,6 +105,11 @@ def main():
                 demo_f = [t for t in failed if "zz_seeded_demo" in t]
                 demo_p = [t for t in passed if "zz_seeded_demo" in t]
                 miss = sorted(base - passed)
+                flaky = [t for t in miss if len(miss) <= 12 and rerun_alone(t)]
+                miss = [t for t in miss if t not in flaky]
+                passed |= set(flaky)
+                if flaky:
+                    r["passed_when_rerun_alone"] = flaky
                 r.update(compiles=True,
                          demo_with_patch="fail" if demo_f else ("pass" if demo_p else "not-run"),
                          demo_tests_failing=sorted(demo_f),
